@@ -1297,7 +1297,7 @@ func TestVerifC13(t *testing.T) {
 		t.Skip("child mode")
 	}
 	rep := mc.NewReport("C13")
-	rep.Rule = "A: every 1-metric batch over the full field alphabet (3 names x 3 tag sets x counter/ts {absent,0,value} x values/uniques/histogram {absent,empty,1,2 elements}) and every ordered pair over the reduced alphabet, each in 7 encodings (TL, JSON, MessagePack compact and wide, Protobuf via generated pb, hand-rolled packed, hand-rolled unpacked), each parsed on dirty and on fresh buffers; A2: every ordered pair of 91 packets (13 batches with zero-valued counter/ts/value/unique/centroid components, empty strings and differing element counts x 7 encodings) parsed one after the other through one reused batch object as in the receive loops, the second must decode to its own reference; B: every byte string up to length L over all 256 bytes and up to length M over 40 format-relevant bytes, plus every truncation and every single-byte substitution (11 representative bytes; MessagePack-wide: truncations only) of valid encodings; C: 32-bit-length header injection into MessagePack encodings in a memory-limited child process. Non-trivial = batch with at least one optional field or tag (presence logic exercised) / non-empty arbitrary string / mutated packet that differs from the valid one"
+	rep.Rule = "A: every 1-metric batch over the full field alphabet (3 names x 3 tag sets x counter/ts {absent,0,value} x values/uniques/histogram {absent,empty,1,2 elements}) and every ordered pair over the reduced alphabet, each in 7 encodings (TL, JSON, MessagePack compact and wide, Protobuf via generated pb, hand-rolled packed, hand-rolled unpacked), each parsed on dirty and on fresh buffers; A2: every ordered pair of 91 packets (13 batches with zero-valued counter/ts/value/unique/centroid components, empty strings and differing element counts x 7 encodings) parsed one after the other through one reused batch object as in the receive loops, the second must decode to its own reference; A3: every ordered pair (and every ordered triple of a reduced set; thorough: every triple) of those packets in 10 spellings (the 7 plus MessagePack/JSON/Protobuf with the fields in the opposite order) parsed in place in ONE reused receive buffer (layouts: UDP datagram at offset 0, TCP frame behind its length prefix, TCP frames arriving together) through one reused batch object, every packet must decode to its own reference; B: every byte string up to length L over all 256 bytes and up to length M over 40 format-relevant bytes, plus every truncation and every single-byte substitution (11 representative bytes; MessagePack-wide: truncations only) of valid encodings; C: 32-bit-length header injection into MessagePack encodings in a memory-limited child process. Non-trivial = batch with at least one optional field or tag (presence logic exercised) / non-empty arbitrary string / mutated packet that differs from the valid one"
 	quick := !mc.Thorough()
 	maxAll := mc.Pick(2, 3)
 	maxReduced := mc.Pick(3, 4)
@@ -1361,6 +1361,10 @@ func TestVerifC13(t *testing.T) {
 		units = append(units, c13Unit{run: func(u *c13UnitCtx) { c13CheckPairsFrom(u, pairPk, first) }})
 	}
 	nPairs := int64(len(pairPk) * len(pairPk))
+
+	// ---- Part A3: packet sequences through one reused batch object AND one reused receive buffer (verif_c13_recvbuf_test.go)
+	recvUnits, nRecvSeq, nRecvPackets := c13RecvUnits(rep)
+	units = append(units, recvUnits...)
 
 	// ---- Part B.1: all byte strings
 	var arbitrary int64
@@ -1559,8 +1563,9 @@ func TestVerifC13(t *testing.T) {
 	}
 
 	execs := pool.parses + childDone + childCrashed
-	rep.AddCounts(execs, execs, batches*7+nPairs+arbitrary+pool.mutated+int64(len(jobs)), ntBatches*7+nPairs+(arbitrary-1)+pool.mutated+int64(len(jobs)))
+	rep.AddCounts(execs, execs, batches*7+nPairs+nRecvSeq+arbitrary+pool.mutated+int64(len(jobs)), ntBatches*7+nPairs+nRecvSeq+(arbitrary-1)+pool.mutated+int64(len(jobs)))
 	rep.Parts["packet_pairs"] = map[string]any{"packets": len(pairPk), "ordered_pairs": nPairs}
+	rep.Parts["receive_buffer_sequences"] = map[string]any{"sequences": nRecvSeq, "packets_parsed_in_place": nRecvPackets, "layouts": c13RecvLayouts}
 	rep.Parts["equivalence"] = map[string]any{"batches": batches, "encodings_per_batch": 7}
 	rep.Parts["arbitrary_bytes"] = map[string]any{"strings": arbitrary}
 	rep.Parts["mutations"] = map[string]any{"mutated_packets": pool.mutated}
